@@ -1,6 +1,6 @@
 (* GENERATED ONCE by tools/pin.py from Properties/C05.v and committed: the pinned statements. *)
 From VF.Properties Require C05.
-From VF Require Import Base Gen_Errors Lexer Grammar Response Tree Tree_proofs HeaderSpec MessageSpec Message_proofs.
+From VF Require Import Base Gen_Errors Lexer Grammar Response Tree Tree_proofs HeaderSpec MessageSpec Message_proofs Message_proofs2.
 Open Scope N_scope.
 
 Section C05_statements.
@@ -49,4 +49,13 @@ Proof. apply VF.Properties.C05.C05_spec_units_err_trace. Qed.
 Goal forall (root ctx : tree D) us d f tr d' f' tr' e,
   spec_units root ctx us d f tr = (d', f', tr', e) -> exists added, tr' = tr ++ added.
 Proof. apply VF.Properties.C05.C05_spec_units_trace_extends. Qed.
+Goal forall (root : tree D) (w : list byte) (nl : bool) (d : D) (f : fmt),
+  wf_ws w = true ->
+  run root (w ++ (if nl then [10] else [])) d f = Val (spec_message root (mkMsg w [] nl) d f).
+Proof. apply VF.Properties.C05.C05_message_semantics_empty. Qed.
+Goal forall (root : tree D) (m : msg) (w : list byte) (d : D) (f : fmt),
+  wf_tree root -> wf_msg m = true -> wf_ws w = true ->
+  run root (m_lead m ++ render_units (m_units m) ++ 59 :: w ++ (if m_nl m then [10] else [])) d f
+  = Val (spec_message root m d f).
+Proof. apply VF.Properties.C05.C05_message_semantics_trailing_separator. Qed.
 End C05_statements.
